@@ -11,12 +11,12 @@ CONSTANTS MasterVersion, LocalVersion, Centre, SubCentre
 Ident == [Ident0 EXCEPT !.mversion = MasterVersion, !.lversion = LocalVersion, !.centre = Centre, !.subcentre = SubCentre]
 
 EmitEntry(e) ==
-    [lab |-> e.lab, t |-> e.t, w |-> e.w, sc |-> e.sc, link |-> e.link, d |-> e.d,
+    [lab |-> e.lab, t |-> e.t, w |-> e.w, sc |-> e.sc, link |-> e.link, d |-> e.d, p |-> e.p,
      v |-> [i \in 1..Len(e.v) |-> [miss |-> e.v[i].miss, raw |-> e.v[i].raw, N |-> NOf(e, i)]]]
 
 Behaviour ==
     [tid |-> tid, ids |-> Templates[tid], ed |-> ed, cmp |-> cmp, nsub |-> nsub, seed |-> seed, err |-> err,
-     nbits_used |-> pos,
+     nbits_used |-> pos, data0 |-> IF Mode = "consume" THEN DataBit0 ELSE 0,
      padding_nonzero |-> IF Mode = "consume" /\ err = ""
                          THEN \E i \in (DataBit0 + pos + 1)..(8 * (Hdrs[tid].s4 + Hdrs[tid].l4)) : BitOf(Oct, i) = 1
                          ELSE FALSE,
